@@ -952,9 +952,10 @@ def regenerate(ctx):
         gen_shorten.main(os.path.join(C.SRC, "_sphere.py"), os.path.join(C.COQ, "gen", "Shorten.v"))
         return True
     except (Unsupported, SyntaxError, OSError, ValueError) as e:
-        ctx.fail("translator gen/shorten.py no longer recognises _sphere.py: %s" % e,
-                 dict(correspondence="gen/shorten.py -> coq/gen/Shorten.v", error=str(e)), kind="tie", no_input=True)
-        return False
+        if not C.tie_fallback(ctx, "translator gen/shorten.py no longer recognises _sphere.py: %s" % e,
+                 dict(correspondence="gen/shorten.py -> coq/gen/Shorten.v", error=str(e)), kind="tie", no_input=True):
+            return False
+        return True
 
 
 def run(ctx):
